@@ -279,7 +279,7 @@ func (r *Report) writeEvidence(o finishOpts, evDir string, nviol, nundec, nknown
 		}
 	}
 	cov := map[string]any{
-		"explanation": "DECIDED (structural necessary condition, from /repo's current source, nothing executed): " + r.decided +
+		"explanation": "DECIDED (structural necessary condition, from /repo's current source, no code of /repo is executed; where a rule analyses generated code, the template constants of /repo are expanded by the standard library over analyser-built data first): " + r.decided +
 			" NOT DECIDED: " + r.undecidedClause,
 		"obligations":         obl,
 		"discharged":          dis,
